@@ -443,6 +443,12 @@ impl Prop for C11 {
         if !judge_unify {
             cx.excluded("known:weave-breaks-sibling-run / combinator-then-skip: unify soundness not judged");
         }
+        // trimming after extension asks the same walk whether a generated complex is redundant; in
+        // selector-extend nothing is protected by source specificity, under @extend the extender is
+        if ext_vs_rule_dom && in_skip && active(cx, KF_SKIP) {
+            ext_vs_rule_dom = false;
+            cx.excluded("known:superselector-combinator-then-skip: extend-vs-rule not judged");
+        }
         let (skip_ab, skip_ba) = (skip_region(&la), skip_region(&lb));
         let judge_ab = !(skip_ab && active(cx, KF_SKIP));
         let judge_ba = !(skip_ba && active(cx, KF_SKIP));
@@ -504,7 +510,7 @@ impl Prop for C11 {
             if bad.is_none() && ext_vs_rule_dom {
                 let (x, y) = (ce.as_ref().unwrap().mask(d, &[]), cer.as_ref().unwrap().mask(d, &[]));
                 if x != y {
-                    bad = Some(("extend-differs-from-rule", x ^ y, format!("selector-extend gives `{}` but `@extend` on the same inputs prints `{}`", ext.as_ref().unwrap().text(), ext_rule.as_ref().unwrap().text())));
+                    bad = Some((if in_skip { "combinator-then-skip:extend-differs-from-rule" } else { "extend-differs-from-rule" }, x ^ y, format!("selector-extend gives `{}` but `@extend` on the same inputs prints `{}`", ext.as_ref().unwrap().text(), ext_rule.as_ref().unwrap().text())));
                 }
             }
             if bad.is_none() && rep_judged {
